@@ -30,3 +30,9 @@ for t in K.P.tasks:
 for t in S.P.tasks:
     if t.name.endswith(".default.c0.c2_0.safe_vs_unsafe") or t.name in ("saba.1.safe_vs_unsafe", "saba.10_6_4.safe_vs_unsafe"):
         P.tasks.append(Task(P, "com_and_sync." + t.name, t.fn, t.func, files=S.P.files, timeout=t.timeout))
+# the pair filter (gravity_ignore_terms) belongs to the integrator: an integrator that leaves a stale filter behind after a
+# switch of integrator silently drops the star-planet (or star-star) terms from the force and energy is not conserved
+from contracts import C02_modes as M
+for t in M.P.tasks:
+    P.tasks.append(Task(P, "gravity.modes." + t.name, t.fn, t.func, files=t.files or M.P.files, timeout=t.timeout))
+P.assumptions += ["shared with C02: " + a for a in M.P.assumptions]
